@@ -6,4 +6,9 @@ pub mod c03 {
         use super::P;
         include!("seqs_var.in");
     }
+    pub mod fx {
+        use super::P;
+        use crate::tables::*;
+        include!("seqs_fx.in");
+    }
 }
